@@ -14,7 +14,7 @@ import pandas as pd
 
 from symx.run import Obligation
 from symx.core import isna
-from .common import all_list_classes, cell_same, col
+from .common import all_list_classes, cell_same, col, same_term
 
 SYM_COLS = ("offset", "length", "bpm", "multiplier")
 NICE = dict(sample=b"x.wav", hitsound_file="f.wav", sample_file="s.wav", volume=30, pan=3)
@@ -101,18 +101,7 @@ def same_rows(ctx, label, tl, rows, cls):
 
 
 def _definitely_same(a, b):
-    if a is b:
-        return True
-    from symx.core import SymNum
-
-    if isinstance(a, SymNum) or isinstance(b, SymNum):
-        return False
-    if isna(a) or isna(b):
-        return isna(a) and isna(b)
-    try:
-        return bool(a == b)
-    except Exception:
-        return False
+    return same_term(a, b)
 
 
 def is_perm(got, rows):
